@@ -3,8 +3,8 @@ C08 — resampled values use exactly the recent, non-future, valid input samples
 
 The helper model (`ResamplingHelper`) takes from the checked source tree (regenerated on every run,
 `Extracted.Resampling`): the None/NaN filter of the receiving task, the guard of the input-period estimate and the
-lower clamp applied to it, the `math.ceil` buffer-length formula, the relevance period, `minimum_relevant_timestamp`
-and which key each of the two `bisect` calls searches for.  `bisect` is the real binary search.
+lower clamp applied to it, the buffer length the deque is rebuilt with (clamps included) and the two keys of the
+`bisect` calls that bound the slice.  `bisect` is the real binary search.
 
 The theorems quantify over every configuration, every receive/tick history (`List Ev`) and every tick time; the
 window theorems need the buffer to be time-ordered — the domain of the property — which every time-ordered history
@@ -18,27 +18,38 @@ open ResamplingHelper Extracted.Resampling
 def C08_windowLen (cfg : Cfg) (h : Helper) : Int :=
   tdMulFloat (match h.inputPeriod with | some ip => max cfg.period ip | none => cfg.period) cfg.maxAge
 
+/-- Closes leaf goals about the translated window keys whatever shape the source gives them. -/
+macro "finish_key" : tactic =>
+  `(tactic| first
+      | rfl
+      | omega
+      | (simp_all; done)
+      | (simp_all <;> omega)
+      | (congr 1 <;> first | rfl | omega | (simp_all <;> omega) | ((repeat' split) <;> omega))
+      | (congr 2 <;> first | rfl | omega | (simp_all <;> omega) | ((repeat' split) <;> omega))
+      | ((repeat' split) <;> first | rfl | omega | (simp_all <;> omega)))
+
+/-- The older edge the source bisects for is `T − W`. -/
 theorem C08_minRelevant (cfg : Cfg) (h : Helper) (T : Int) : minRelevant cfg h T = T - C08_windowLen cfg h := by
-  unfold minRelevant C08_windowLen minimumRelevantTimestamp relevancePeriod
+  unfold minRelevant C08_windowLen relevanceLowKey
   cases h.inputPeriod with
-  | none => rfl
-  | some ip =>
-    simp only
-    have : (if ip > cfg.period then ip else cfg.period) = max cfg.period ip := by
-      by_cases hc : ip > cfg.period
-      · simp only [hc, if_true]; omega
-      · simp only [hc, if_false]; omega
-    rw [this]
+  | none => finish_key
+  | some ip => simp only []; finish_key
+
+/-- The newer edge the source bisects for is `T` itself. -/
+theorem C08_maxRelevant (cfg : Cfg) (h : Helper) (T : Int) : maxRelevant cfg h T = T := by
+  unfold maxRelevant relevanceHighKey
+  cases h.inputPeriod with
+  | none => finish_key
+  | some ip => finish_key
 
 /-- What is handed to the resampling function at tick `T` is the buffer filtered on the half-open interval
 `(T − W, T]`, in arrival order: strict at the old edge, inclusive at `T`. -/
 theorem C08_window (cfg : Cfg) (h : Helper) (T : Int) (hs : SortedTs h.buf) :
     relevant cfg h T = h.buf.filter (fun s => decide (T - C08_windowLen cfg h < s.ts ∧ s.ts ≤ T)) := by
-  have hmin : minIndexKey = BisectKey.minimumRelevantTimestamp := rfl
-  have hmax : maxIndexKey = BisectKey.timestamp := rfl
   unfold relevant
-  simp only [hmin, hmax, keyOf]
-  rw [bisectRight_eq _ _ hs, bisectRight_eq _ _ hs, window_eq _ _ _ hs, C08_minRelevant]
+  simp only []
+  rw [bisectRight_eq _ _ hs, bisectRight_eq _ _ hs, C08_maxRelevant, window_eq _ _ _ hs, C08_minRelevant]
 
 /-- Nothing stamped after `T` is handed over, nothing as old as `T − W` either. -/
 theorem C08_no_future (cfg : Cfg) (h : Helper) (T : Int) (hs : SortedTs h.buf) :
@@ -71,17 +82,22 @@ theorem C08_resize_keeps_suffix (cfg : Cfg) (es : List Ev) (T est : Int) :
     (tick cfg (run cfg es) T est).1.buf = lastN (tick cfg (run cfg es) T est).1.maxlen (run cfg es).buf :=
   tick_buf cfg (run cfg es) T est (C08_recent cfg es).2
 
+/-- What the receiving task accepts is neither None nor NaN (whatever shape the filter has in the source). -/
+theorem C08_accepted_valid (x : Sample) (h : accepted x = true) : x.isNone = false ∧ x.isNaN = false := by
+  unfold accepted acceptsSample at h
+  cases h1 : x.isNone <;> cases h2 : x.isNaN <;> cases h3 : x.isInf <;> simp_all
+
 /-- Nothing that was None or NaN is ever in the buffer (invariant over the receive history). -/
 theorem C08_no_invalid (cfg : Cfg) (es : List Ev) :
     ∀ x ∈ (run cfg es).buf, x.isNone = false ∧ x.isNaN = false := by
   intro x hx
   have hv := validHistory_accepted es x ((C08_recent cfg es).1.subset hx)
-  simp only [accepted, acceptsSample, Bool.and_eq_true, Bool.not_eq_true'] at hv
-  exact hv
+  exact C08_accepted_valid x hv
 
 /-- Conversely, every sample that is neither None nor NaN — ±inf included — is accepted into the buffer. -/
 theorem C08_valid_accepted (x : Sample) (h1 : x.isNone = false) (h2 : x.isNaN = false) : accepted x = true := by
-  simp [accepted, acceptsSample, h1, h2]
+  unfold accepted acceptsSample
+  cases h3 : x.isInf <;> simp_all
 
 example : accepted ⟨0, 0, false, false, true⟩ = true := by decide
 
@@ -111,6 +127,18 @@ theorem C08_always_emits (cfg : Cfg) (h : Helper) (T est : Int) : (tick cfg h T 
   · rw [ht]
   · exact absurd hb hn
   · rw [ht]
+
+/-- The deque is rebuilt for `ceil(period / input period · max_age)` samples (when up-sampling:
+`ceil(input period [s] · max_age)`), at least 1 and at most `max_buffer_len` — whatever `warn_buffer_len` is. -/
+theorem C08_buffer_len (ip p : Int) (ma : Rat) (maxL warnL : Nat) :
+    newBufferLenOf ip p ma maxL warnL =
+      min (maxL : Int) (max 1 (Rat.ceil (if ip > p then totalSeconds ip * ma else totalSeconds p / totalSeconds ip * ma))) := by
+  unfold newBufferLenOf
+  by_cases h : ip > p <;> simp only [h, decide_true, decide_false, if_true, if_false, Bool.false_eq_true] <;>
+    first
+      | omega
+      | ((repeat' split) <;> omega)
+      | (simp_all <;> (repeat' split) <;> omega)
 
 /-- The full statement: for every configuration, every time-ordered history and every tick time. -/
 def C08_statement : Prop :=
@@ -150,8 +178,7 @@ theorem C08_full : C08_statement := by
     have hm : s ∈ (tick cfg (run cfg es) T est).1.buf := by
       rw [C08_window cfg _ T hsorted] at hs
       exact (List.mem_filter.mp hs).1
-    have hv := validHistory_accepted es s (hsuf.subset hm)
-    simp only [accepted, acceptsSample, Bool.and_eq_true, Bool.not_eq_true'] at hv
+    have hv := C08_accepted_valid s (validHistory_accepted es s (hsuf.subset hm))
     exact ⟨h1, hv.1, hv.2⟩
 
 -- non-vacuity: a time-ordered history with a sample stamped exactly `T` (kept), exactly `T − W` (dropped),
